@@ -39,7 +39,11 @@ DOMAIN_PROFILES = {  # NRPS/PKS domain profile -> length
     "Epimerization": 300, "PKS_KS": 420, "PKS_AT": 300, "PKS_KR": 180, "PKS_DH": 160, "PKS_ER": 300, "ACP": 70,
     "PKS_Docking_Nterm": 30, "PKS_Docking_Cterm": 70, "NRPS-COM_Nterm": 35, "NRPS-COM_Cterm": 20, "TD": 250,
     "cMT": 220, "nMT": 220, "oMT": 220, "CAL_domain": 400, "Trans-AT_docking": 150, "ECH": 250,
+    "Hybrid-KS": 60, "Modular-KS": 60, "Iterative-KS": 60, "Enediyne-KS": 60, "Trans-AT-KS": 60,
 }
+
+
+MAIN_DOMAINS = sorted(name for name in DOMAIN_PROFILES if not name.endswith("-KS"))
 
 
 def scratch_dir(prefix: str) -> str:
@@ -177,6 +181,7 @@ class SimClock:
 
     def __init__(self, start: float) -> None:
         self.now = float(start)
+        self.start = float(start)
 
     def time(self) -> float:
         self.now += 0.25     # every reading advances simulated time a little, deterministically
@@ -223,7 +228,9 @@ def _install(inv: Dict[str, Any]) -> None:
     class _DateTime(real_datetime.datetime):
         @classmethod
         def now(cls, tz: Any = None) -> "real_datetime.datetime":  # pylint: disable=arguments-differ
-            return real_datetime.datetime.fromtimestamp(clock.time(), tz=real_datetime.timezone.utc).replace(tzinfo=None)
+            # the date does not advance with the number of clock readings: a fresh analysis and a
+            # reuse of its results in the same simulated second print the same "Run date"
+            return real_datetime.datetime.fromtimestamp(clock.start, tz=real_datetime.timezone.utc).replace(tzinfo=None)
 
     main.time = _Time()
     main.datetime = _DateTime
@@ -312,6 +319,41 @@ def invoke(inv: Dict[str, Any], hooks: Optional[Callable[[Dict[str, Any]], None]
         result = {"status": f"child-died:{status}", "events": []}
     result["wait_status"] = status
     return result
+
+
+def fork_call(func: Callable[[], Any], timeout_s: int = 120) -> Any:
+    """ Runs func() in a forked child (pristine antismash module state) and returns its picklable result,
+        or {"harness-error": traceback} """
+    result_path = os.path.join(SCRATCH_ROOT, f"call_{os.getpid()}_{id(func)}.pkl")
+    sys.stdout.flush()
+    sys.stderr.flush()
+    pid = os.fork()
+    if pid == 0:
+        code = 0
+        try:
+            signal.alarm(timeout_s)
+            devnull = os.open(os.devnull, os.O_WRONLY)
+            os.dup2(devnull, 1)
+            os.dup2(devnull, 2)
+            import logging
+            logging.disable(logging.CRITICAL)
+            value = func()
+            with open(result_path, "wb") as handle:
+                pickle.dump(value, handle)
+        except BaseException:  # pylint: disable=broad-except
+            code = 70
+            with open(result_path, "wb") as handle:
+                pickle.dump({"harness-error": traceback.format_exc()[-2000:]}, handle)
+        finally:
+            os._exit(code)
+    os.waitpid(pid, 0)
+    try:
+        with open(result_path, "rb") as handle:
+            value = pickle.load(handle)
+        os.unlink(result_path)
+        return value
+    except (OSError, EOFError, pickle.UnpicklingError):
+        return {"harness-error": "child died without a result"}
 
 
 def cleanup(path: str) -> None:
